@@ -7,6 +7,8 @@ import (
 	"math/rand"
 	"os"
 	"path/filepath"
+	"sync"
+	"sync/atomic"
 	"time"
 
 	"verif/harness/graph"
@@ -283,12 +285,119 @@ func C03(c *vk.Ctx) {
 		c.Infra("the mode table was replayed on %d cells only: the check would be vacuous", walks)
 	}
 	c03Histories(c)
+	c.Add("traces_validated_against_impl", int64(c03UnderContention(c)))
 	c.Set("transitions", trans)
 	c.Add("traces_validated_against_impl", int64(walks))
 	c.Set("exhaustive", c.Thorough())
 	c.Set("spec", "Revocation.tla with CfgSpace = the whole table mode(6) x OCSP outcome(4) x aia_strict(2) x cdp_strict(2) x backend(2), MaxSteps = 2 (Provision; one handshake with every certificate and every document the CDP may serve, plus the chain-less handshake); property ModePromise")
 	c.Set("rule", "a case is one cell: (configuration, certificate, CRL outcome via the served document) executed on a fresh validator; equality of accept/reject with the specification's verdict (the property is an iff), plus touch sets: modes without CRL never fetch a CRL nor create anything in work_dir, modes without OCSP never contact the responder; chain shapes (leaf+root, leaf+intermediate+root, two chains, no chain) rotate by seed; plus histories (tours of the complete graphs of the prefer_* / unset modes with a responder that says good and CRLs that list and un-list the certificates, OCSP cache on in two worlds of three) judged by the same iff at every handshake")
 	c.Assume("unset mode is rendered by omitting the option; 'unreachable CDP' is mostly a garbage body (fast) and a connection hang-up in a seeded sample of cells (2 s retry loop each)")
+}
+
+// c03UnderContention: a cell of the table is a statement about every handshake, also about one that is not alone. The list that is
+// in force names the certificate (and every list that a refresh swaps in does); while it is presented over and over, other
+// certificates that name the same distribution point are presented and refresh passes run. Under every mode that consults CRLs
+// every single one of these handshakes is refused.
+func c03UnderContention(c *vk.Ctx) int {
+	n := 0
+	for mi, mode := range []string{"crl_only", "prefer_crl", "prefer_ocsp", ""} {
+		for _, disk := range []bool{false, true} {
+			if c.Violations() > 6 || (!c.Thorough() && disk && mi%2 == int(c.Seed)%2) {
+				continue
+			}
+			org := origin.New()
+			ca := pki.NewCA(pki.CAOpts{Name: "Contended CA", Serial: 1300})
+			listed := ca.Leaf(pki.LeafOpts{CN: "listed", Serial: big.NewInt(1301), CDP: []string{org.URL + "/cdp/contended.crl"}})
+			other := ca.Leaf(pki.LeafOpts{CN: "other", Serial: big.NewInt(1302), CDP: []string{org.URL + "/cdp/contended.crl"}})
+			var num atomic.Int64
+			org.Set("/cdp/contended.crl", origin.Behaviour{Kind: "func", Func: func([]byte) (int, []byte) {
+				return 200, ca.SimpleCRL(num.Add(1), 1301) // the CA re-issues for every fetch; every issue names the certificate
+			}})
+			w, err := world.New(world.Cfg{Mode: mode, Storage: backendName(disk), Sig: "verify", Fetch: "fetch_actively", Interval: "1h"})
+			if err != nil {
+				c.Infra("world: %v", err)
+			}
+			if err := w.Provision(); err != nil {
+				c.Infra("provision: %v", err)
+			}
+			chL, chO := pki.Chain(listed.Cert, ca), pki.Chain(other.Cert, ca)
+			if r := w.HandshakeTimeout(chL, 60*time.Second); r.Verdict != "revoked" {
+				c.Drift("contention:list-not-in-force-before-the-experiment:" + r.Verdict)
+				w.Destroy()
+				org.Close()
+				continue
+			}
+			stop := make(chan struct{})
+			var wg sync.WaitGroup
+			var total, accepted, errs atomic.Int64
+			var firstErr atomic.Value
+			for g := 0; g < 4; g++ {
+				wg.Add(1)
+				go func() {
+					defer wg.Done()
+					for {
+						select {
+						case <-stop:
+							return
+						default:
+						}
+						r := w.Handshake(chL)
+						total.Add(1)
+						switch r.Verdict {
+						case "accept":
+							accepted.Add(1)
+						case "revoked":
+						default:
+							errs.Add(1)
+							firstErr.CompareAndSwap(nil, r.Verdict+": "+r.Err+r.Panic)
+						}
+					}
+				}()
+			}
+			for g := 0; g < 2; g++ {
+				wg.Add(1)
+				go func() {
+					defer wg.Done()
+					for {
+						select {
+						case <-stop:
+							return
+						default:
+							w.Handshake(chO)
+						}
+					}
+				}()
+			}
+			wg.Add(1)
+			go func() {
+				defer wg.Done()
+				for {
+					select {
+					case <-stop:
+						return
+					default:
+						w.RefreshAll()
+					}
+				}
+			}()
+			time.Sleep(time.Duration(c.Pick(900, 4000)) * time.Millisecond)
+			close(stop)
+			wg.Wait()
+			n++
+			c.Eval(fmt.Sprintf("contention|%s|%s", mode, backendName(disk)))
+			rep := map[string]any{"mode": mode, "backend": backendName(disk), "handshakes_of_the_listed_certificate": total.Load(), "accepted": accepted.Load(), "errors": errs.Load(), "first_error": firstErr.Load(), "refreshes_fetched": num.Load()}
+			if accepted.Load() > 0 {
+				c.Violation(fmt.Sprintf("mode=%s:listed-certificate-accepted-under-contention", map[bool]string{true: "unset", false: mode}[mode == ""]),
+					fmt.Sprintf("%d of %d handshakes of a certificate that every list in force names were accepted while other handshakes and refresh passes were using the same CRL (%s backend)", accepted.Load(), total.Load(), backendName(disk)), rep)
+			}
+			if errs.Load() > 0 {
+				c.Drift("contention:handshake-errors")
+			}
+			w.Destroy()
+			org.Close()
+		}
+	}
+	return n
 }
 
 func cfgsC01(c *vk.Ctx) []HubCfg {
@@ -752,7 +861,6 @@ func restartOriginGonePaths(g *graph.Graph) [][]*graph.Edge {
 	}
 	return out
 }
-
 
 // reloadSameDocPaths: Provision(d) [; Handshake(c1, d1)] ; Restart into the other configuration of the family ; Provision(d)
 // [; Handshake(c1, d1)] ; Handshake(c2) for every d and d1 the graph has.
